@@ -42,6 +42,32 @@ theorem snapshot_after_prefix {α : Type} (N : Nat) (hN : 1 ≤ N) (before after
     simp [CQ.adds, List.foldl_append]
   rw [this]; exact snapshot_is_last_N N hN _
 
+/-- A snapshot is a contiguous run of the addition order that ends at the newest message. -/
+theorem snapshot_is_suffix {α : Type} (N : Nat) (hN : 1 ≤ N) (ms : List α) :
+    ((CQ.new (N : Int)).adds ms).get <:+ ms := by
+  rw [snapshot_is_last_N N hN ms]; exact List.drop_suffix _ _
+
+/-- The message added last is always in the snapshot, in last place (eviction never removes it). -/
+theorem newest_always_present {α : Type} (N : Nat) (hN : 1 ≤ N) (ms : List α) (m : α) :
+    ((CQ.new (N : Int)).adds (ms ++ [m])).get.getLast? = some m := by
+  rw [snapshot_is_last_N N hN]
+  have hlen : (ms ++ [m]).length - N ≤ ms.length := by simp; omega
+  rw [List.drop_append_of_le_length hlen]
+  simp
+
+/-- Two snapshots in lock order are consistent with each other: the later one is a suffix of the
+    earlier one followed by what was added in between (nothing reappears, nothing is reordered). -/
+theorem later_snapshot_extends_earlier {α : Type} (N : Nat) (hN : 1 ≤ N) (before after : List α) :
+    ((CQ.new (N : Int)).adds (before ++ after)).get <:+ ((CQ.new (N : Int)).adds before).get ++ after := by
+  rw [snapshot_is_last_N N hN, snapshot_is_last_N N hN]
+  have h1 : before.length - N ≤ before.length := by omega
+  rw [← List.drop_append_of_le_length h1 (l₂ := after)]
+  have : (before ++ after).length - N =
+      (before.length - N) + ((before ++ after).length - N - (before.length - N)) := by
+    simp; omega
+  rw [this, ← List.drop_drop]
+  exact List.drop_suffix _ _
+
 /-! ## Concurrent use
 
 `Ntrip.QC` (`Model/QueueConc.lean`) is a transition system of any number of goroutines calling
